@@ -74,7 +74,7 @@ PROPS = {
         "module": "midi",
         "mc": _MIDI_MC,
         "graphs": [("midi", "wire", QT), ("midi", "wirepb", QT)],
-        "traces": [("midi", "framing", QT), ("midi", "short", QT, {"thorough": 4})],
+        "traces": [("midi", "framing", QT), ("midi", "short", QT, {"thorough": 4}), ("midi", "ctl", QT), ("midi", "kbd", QT)],
     },
     "C18": {
         "module": "midi",
@@ -94,7 +94,7 @@ PROPS.update({
         "rule": "distinct table cells (of 1024) whose phases were read out; thorough: all 2^24 phases",
     },
     "C11": {"module": "lfo", "mc": _LFO_MC, "graphs": [("lfo", "fs128", QT)], "traces": [("lfo", "freq", QT), ("lfo", "shapes", QT), ("lfo", "extreme", QT)]},
-    "C12": {"module": "lfo", "mc": _LFO_MC, "traces": [("lfo", "shapes", QT), _LFO_SWEEP]},
+    "C12": {"module": "lfo", "mc": _LFO_MC, "traces": [("lfo", "shapes", QT), ("lfo", "extreme", QT), _LFO_SWEEP]},
 })
 
 _ADSR_MC = [("adsr", "MC_Adsr", "MC_Adsr.cfg", QT), ("adsr-live", "MC_Adsr", "MC_Adsr_live.cfg", QT),
@@ -110,7 +110,7 @@ PROPS.update({
 _Q_MC = [("quant", "MC_Quantizer", "MC_Quantizer.cfg", QT), ("quant-big", "MC_Quantizer", "MC_Quantizer_big.cfg", T)]
 _Q_SWEEP = ("quant", "sweep", QT, {"thorough": 16})
 PROPS.update({
-    "C07": {"module": "quant", "mc": _Q_MC, "traces": [("quant", "hyst", QT), _Q_SWEEP]},
+    "C07": {"module": "quant", "mc": _Q_MC, "traces": [("quant", "hyst", QT), _Q_SWEEP, ("quant", "boundaries", QT)]},
     "C08": {"module": "quant", "mc": _Q_MC, "traces": [_Q_SWEEP, ("quant", "boundaries", QT), ("quant", "hyst", QT)],
             "rule": "distinct scales swept on fresh quantizers (run-length compressed input->note map); thorough: all "
                     "4095 scales x all 10,000,001 microvolt inputs"},
